@@ -53,6 +53,11 @@ Definition type_hash_from_identifier (id : list Z) : Z :=
 Definition compile_type_identifier (scope : list (list Z)) (name : list Z) : list Z :=
   identifier_from_type_hash (compile_type_hash scope name).
 
+(* flatbuffers_identifier_from_name(const char *name, flatbuffers_fid_t out): the runtime counterpart of the
+   generated N_type_identifier, = identifier_from_type_hash (type_hash_from_name name) *)
+Definition identifier_from_name (mem : list Z) : list Z :=
+  identifier_from_type_hash (type_hash_from_name mem).
+
 (* flatbuffers_type_hash_from_string: a NUL terminated string, at most 4 significant bytes,
    stops at the first NUL among p[0..2]; p[3] is added untested. [mem] is the memory at the pointer,
    reads beyond it give the terminator 0. *)
